@@ -298,7 +298,12 @@ def _probe_ops(plan: dict) -> List[list]:
     return ops + extra
 
 
+_KNOBS_DONE = False
+
+
 def _apply_knobs(plan: dict):
+    if _KNOBS_DONE:  # forked from a process that already applied them (child_warm)
+        return
     if plan.get("cache_size") is not None:
         from apischema import cache
 
@@ -328,6 +333,27 @@ def _arm_for(plan: dict, t: int, j: int, faults: bool):
     if faults and f and f["thread"] == t and f["op"] == j:
         return [f["cb"], f["n"]]
     return None
+
+
+def child_warm(plan: dict, script: Optional[list] = None) -> dict:
+    """Warm-process runs: the knobs (cache size, prefill of 140 / 300 other types) are applied once in
+    this intermediate process and the baseline, the simulation and the fault-free baseline are forked
+    from it -- the three still start from one and the same heap image, and the prefill (0.4-1 s, more
+    than the rest of the run) is paid once instead of three times."""
+    global _KNOBS_DONE
+    from dst import proc
+
+    _apply_knobs(plan)
+    _KNOBS_DONE = True
+    out = {"base": proc.fork_call(child_serial, plan, None, True), "sim": None, "base_nf": None}
+    try:
+        out["sim"] = proc.fork_call(child_simulate, plan, script)
+    except proc.HarnessError as e:
+        out["sim_error"] = str(e)
+        return out
+    if plan.get("fault"):
+        out["base_nf"] = proc.fork_call(child_serial, plan, None, False)
+    return out
 
 
 def child_serial(plan: dict, order: Optional[List[List[int]]], faults: bool) -> dict:
